@@ -4081,7 +4081,9 @@ class UDFFileEntry:
 
         if not new_fi_desc.is_parent():
             for fi_desc in self.fi_descs:
-                if not fi_desc.is_parent() and fi_desc.fi == new_fi_desc.fi:
+                # The same bytes in an 8-bit and in a 16-bit identifier are
+                # different names.
+                if not fi_desc.is_parent() and fi_desc.fi == new_fi_desc.fi and fi_desc.encoding == new_fi_desc.encoding:
                     raise pycdlibexception.PyCdlibInvalidInput('Failed adding duplicate name to parent')
 
     def add_file_ident_desc(self, new_fi_desc, logical_block_size):
@@ -4119,14 +4121,18 @@ class UDFFileEntry:
 
         return new_num_extents - old_num_extents
 
-    def remove_file_ident_desc_by_name(self, name, logical_block_size):
-        # type: (bytes, int) -> int
+    def remove_file_ident_desc_by_name(self, name, logical_block_size,
+                                       encoding=None):
+        # type: (bytes, int, Optional[str]) -> int
         """
         Remove a UDF File Identifier Descriptor from this UDF File Entry.
 
         Parameters:
          name - The name of the UDF File Identifier Descriptor to remove.
          logical_block_size - The logical block size to use.
+         encoding - The encoding the name is stored in; the same bytes in an
+                    8-bit and in a 16-bit identifier are different names.  If
+                    None, the first identifier with these bytes is removed.
         Returns:
          The number of extents removed due to removing this File Identifier Descriptor.
         """
@@ -4140,7 +4146,7 @@ class UDFFileEntry:
         # If flags bit 3 is set, the entries are sorted.
         desc_index = len(self.fi_descs)
         for index, fi_desc in enumerate(self.fi_descs):
-            if fi_desc.fi == name:
+            if fi_desc.fi == name and encoding in (None, fi_desc.encoding):
                 desc_index = index
                 break
         if desc_index == len(self.fi_descs) or self.fi_descs[desc_index].fi != name:
